@@ -142,6 +142,23 @@ type c13EpCall struct {
 	epsBefore int
 	processed bool
 	cancelled bool
+	raced     bool // started while another caller's dial for the key was in flight
+}
+
+// c13EpCacheable: the failure kinds after which the pool keeps a negative-cache
+// entry for the key (udp_endpoint_pool.go: "no alive dialer", transient local
+// socket errors and network-unreachable/address-unsuitable are documented there as
+// not cached; a hit on the negative cache itself writes nothing).
+func c13EpCacheable(err error) bool {
+	switch {
+	case err == nil,
+		errors.Is(err, ErrEndpointFailed),
+		errors.Is(err, outbound.ErrNoAliveDialer),
+		errors.Is(err, syscall.EADDRINUSE),
+		errors.Is(err, commonerrors.ErrNetworkUnreachable):
+		return false
+	}
+	return true
 }
 
 func (c *c13EpCall) isDone() bool {
@@ -209,6 +226,11 @@ type c13EpWorld struct {
 	classes  map[string]bool
 	netType  dialer.NetworkType
 	stackBuf []byte
+	// negative cache model: per key, a lower bound of the instant until which a
+	// cached dial failure must keep answering (zero = none); lastObs is the
+	// virtual time of the previous oracle evaluation.
+	negUntil []time.Time
+	lastObs  time.Time
 }
 
 type c13EpFakeDialer struct {
@@ -313,6 +335,8 @@ func c13NewEpWorld(shared bool) *c13EpWorld {
 		}
 	}
 	w.cur = make([]*c13Ep, len(w.keys))
+	w.negUntil = make([]time.Time, len(w.keys))
+	w.lastObs = time.Now()
 	w.scriptAt = make([]int, len(w.keys))
 	logger := logrus.New()
 	logger.SetOutput(io.Discard)
@@ -533,6 +557,9 @@ func (w *c13EpWorld) inflightOn(key int) int {
 func (w *c13EpWorld) process(rt *rapid.T) {
 	w.mu.Lock()
 	defer w.mu.Unlock()
+	now := time.Now()
+	prevObs := w.lastObs
+	w.lastObs = now
 	var batch []*c13EpCall
 	for _, c := range w.calls {
 		if !c.processed && c.isDone() {
@@ -554,6 +581,15 @@ func (w *c13EpWorld) process(rt *rapid.T) {
 			if c.ownConn != nil && c.ownConn.closeCalls.Load() == 0 {
 				rt.Fatalf("call %d on key %d failed (%v) but the conn it dialled was never closed\nhistory: %s", c.id, c.key, c.err, w.tail())
 			}
+			if c13EpCacheable(c.err) {
+				// the failure was cached no earlier than the previous observation
+				if u := prevObs.Add(2 * time.Second); u.After(w.negUntil[c.key]) {
+					w.negUntil[c.key] = u
+				}
+			}
+			if errors.Is(c.err, ErrEndpointFailed) && c.raced {
+				w.classes["waiter_behind_failed_leader"] = true
+			}
 			switch {
 			case errors.Is(c.err, ErrEndpointFailed):
 				w.classes["negative_cache_hit"] = true
@@ -568,6 +604,10 @@ func (w *c13EpWorld) process(rt *rapid.T) {
 			}
 			w.tr("call%d(k%d)=>%v", c.id, c.key, c.err)
 			continue
+		}
+		if now.Before(w.negUntil[c.key]) {
+			rt.Fatalf("key %d: call %d was handed an endpoint %v before the end of the 2s window that follows a cached dial failure (a recently failed key must keep failing, without a new dial)\nhistory: %s",
+				c.key, c.id, w.negUntil[c.key].Sub(now), w.tail())
 		}
 		ue := c.ue
 		if ue == nil {
@@ -633,6 +673,14 @@ func (w *c13EpWorld) process(rt *rapid.T) {
 			continue
 		}
 		d.processed = true
+		if now.Before(w.negUntil[d.call.key]) {
+			what := "a caller"
+			if d.call.raced {
+				what = "a caller that was queued behind the failing first caller"
+			}
+			rt.Fatalf("key %d: %s (call %d) started another dial %v before the end of the 2s negative-cache window of a failed dial: concurrent first packets must cause a single dial and a recently failed key must not be dialled again\nhistory: %s",
+				d.call.key, what, d.call.id, w.negUntil[d.call.key].Sub(now), w.tail())
+		}
 		for _, ep := range w.eps {
 			if ep.key == d.call.key && ep.live() {
 				rt.Fatalf("key %d: call %d started a dial although endpoint #%d of that key is live\nhistory: %s", d.call.key, d.call.id, ep.serial, w.tail())
@@ -874,10 +922,12 @@ func c13EndpointCase(rt *rapid.T) {
 				}
 			}
 			nat := rapid.SampledFrom(nats).Draw(rt, "nat")
-			if w.parkedDial(key) != nil {
+			raced := w.parkedDial(key) != nil
+			if raced {
 				w.classes["racing_callers"] = true
 			}
 			c := w.startCall(key, gen, nat)
+			c.raced = raced
 			w.tr("call%d(k%d,g%d)", c.id, key, gen)
 		case "release":
 			d := parkedDials[rapid.IntRange(0, len(parkedDials)-1).Draw(rt, "dial")]
@@ -1063,6 +1113,9 @@ func c13EndpointCase(rt *rapid.T) {
 		case "reset":
 			w.tr("Reset")
 			w.pool.Reset()
+			for k := range w.negUntil {
+				w.negUntil[k] = time.Time{} // Reset drops negative-cache entries too
+			}
 			synctest.Wait()
 			w.classes["reset"] = true
 			for _, ep := range w.eps {
